@@ -189,7 +189,7 @@ def build_machine(g, position, gkey, tree="small"):
         cfg = {"id": "m", "initial": "p", "states": {
             "p": {"type": "parallel", "on": par_on, "states": {
                 "r1": {"initial": "x", "on": root_on, "states": {"x": {"on": leaf_on}, "y": {}}},
-                "r2": {"initial": "u", "states": {"u": {"initial": "deep", "states": {"deep": {}, "other": {}}}, "v": {}}}}},
+                "r2": {"initial": "u", "states": {"u": {"initial": "deep", "states": {"deep": {}, "other": {}, "dee": {}}}, "v": {}}}}},
             "q": {"initial": "x", "states": {"x": {}}}}}
     return cfg
 
@@ -432,7 +432,8 @@ def extra_run(tier, seed, jobs):
 
 
 # ------------------------------------------------------------------ Hypothesis layer (depth <= 4, stateIn spellings)
-BIG_IDS = ["m", "m.p", "m.p.r1", "m.p.r1.x", "m.p.r1.y", "m.p.r2", "m.p.r2.u", "m.p.r2.u.deep", "m.p.r2.u.other", "m.p.r2.v",
+# ("dee" is never active but its name is a prefix of the active "deep": stateIn must not match by substring)
+BIG_IDS = ["m", "m.p", "m.p.r1", "m.p.r1.x", "m.p.r1.y", "m.p.r2", "m.p.r2.u", "m.p.r2.u.deep", "m.p.r2.u.other", "m.p.r2.u.dee", "m.p.r2.u.dee", "m.p.r2.v",
            "m.q", "m.q.x"]
 
 
